@@ -17,10 +17,26 @@ ASSUMPTION_TEXT = {
     "PS6": "PS6 attribute access on self/state() is a plain field",
     "PS7": "PS7 ==, <=, >=, in on abstract values are deterministic side-effect-free functions of their operands (uninterpreted)",
     "PS8": "PS8 implicit exceptions are exactly those for which safety VCs are generated; MemoryError/RecursionError/signals ignored",
+    "PS11": "PS11 whether an order comparison (<=, >=) of two values raises is a deterministic function of the two values, symmetric in them, and a deep copy behaves like the original (only the /raising contract variants)",
     "PS9": "PS9 single-threaded; id() of a live object is unique",
     "E1": "E1 == on recorded values is an equivalence invariant under deepcopy (only where a clause says so)",
     "E2": "E2 <= / >= are converse total preorders on compared values (property scope: totally ordered values)",
+    "X1": "X1 CPython repr of int/float/complex/str/bytes/None/bool evaluates back to the value (trusted)",
+    "X2": "X2 black format_str / the format-command keep the AST (except docstring normalisation of a leading string statement) (trusted; cross-checked by B-rt/B-str/B-layout)",
+    "X3": "X3 asttokens/tokenize: token positions of sibling nodes are ordered, nested in the parent's brace tokens, character columns; get_text_positions = first/last token (trusted; cross-checked by the stand-ins on every generated file)",
+    "X4": "X4 asttokens.util.replace splices disjoint sorted ranges (trusted)",
+    "X5": "X5 Path.read_text('utf-8') decodes with universal newlines; LineNumbers offsets are monotone in (line, col) (trusted)",
+    "X6": "X6 subprocess.run(shell=True) returns a CompletedProcess and does not raise for a failing command (trusted)",
+    "X7": "X7 hashlib.sha256 is injective on the data seen (trusted)",
+    "X8": "X8 pathlib glob/rename/unlink/write_bytes/iterdir/exists, os.environ, tomllib act on the file system / environment as documented (trusted)",
     "X9": "X9 textbook contracts of max/sorted/groupby/zip/enumerate/reversed (groupby = run-length encoding)",
+    "X10": "X10 tokenize.generate_tokens / untokenize round-trip (type, string) pairs (trusted)",
+    "X11": "X11 executing.Source.executing(frame) returns the ast.Call of the running call (trusted; B-sites, B-rt placements)",
+    "X12": "X12 operator dispatch tries the reflected operand after NotImplemented (trusted)",
+    "X13": "X13 pytest: fixtures, pytest.fail in teardown => error, exit status, option parsing (trusted; exercised by B-sess)",
+    "X14": "X14 copy.deepcopy yields an independent object graph (trusted)",
+    "X15": "X15 black is idempotent on its own output (trusted; fixed-point check in B-layout)",
+    "A-frame": "A-frame calls treated as havoc may raise but do not modify the tracked state of the contract (listed per function under havoc_calls)",
 }
 
 
